@@ -101,6 +101,42 @@ def run(R):
         for b in bad[:3]:
             R.violation("result under concurrency differs from the sequential run: %s" % json.dumps(b), b, name="mtdiff")
         mtfiles.append(out)
+    # --- the whole wrapped API (the calls TLC enumerates from Contract.tla) run concurrently on the TSan build
+    from checks import C12
+    gen = C12.generate(R, "GenContract.cfg")
+    script = R.path("mt", "api-script.txt")
+    step = 2 if thorough else 9
+    nlines = 0
+    with open(script, "w") as fh:
+        for p in C12.PARTS:
+            for i, l in enumerate(open(gen[p][1])):
+                f = l.split()
+                if f[5] == "H" and f[6] == "16" and i % step == 0:
+                    fh.write(l); nlines += 1
+    exe2 = R.cc("contract_mt", ["contract_mt.c"], "tsan", extra=["-Wno-deprecated-declarations"])
+    api_runs = [(6, R.seed), (13, R.seed + 1)] + ([(16, R.seed + 2), (3, R.seed + 3)] if thorough else [])
+    api_calls = 0
+    for (n, sd) in api_runs:
+        out = R.path("mt", "api-%d.ndjson" % n)
+        rr = R.run([exe2, str(sd), script, str(n), out], env={"TSAN_OPTIONS": "halt_on_error=0 exitcode=0 report_signal_unsafe=0"}, timeout=3000, ok_codes=None)
+        if rr.returncode != 0:
+            R.violation("concurrent API run crashed (rc=%d, %d threads): %s" % (rr.returncode, n, rr.stderr[-300:].replace("\n", " | ")), {"stderr": rr.stderr[-3000:]}, name="mtcrash")
+            continue
+        api_calls += vlib.read_ndjson(out)[-1]["calls_executed"]
+        seen = set()
+        for b in re.split(r"(?=WARNING: ThreadSanitizer)", rr.stderr):
+            if not b.startswith("WARNING: ThreadSanitizer"):
+                continue
+            frames = re.findall(r"#0 (\S+) (\S+?):(\d+)", b)
+            key = tuple(sorted(set((f[0], os.path.basename(f[1]), f[2]) for f in frames[:2])))
+            if key in seen:
+                continue
+            seen.add(key)
+            reports += 1
+            R.violation("ThreadSanitizer: data race in %s (whole-API run, %d threads)" % (" / ".join("%s %s:%s" % k for k in key), n),
+                        {"threads": n, "report": b[:3000]}, name="race")
+    R.cov["race_detection_whole_api"] = {"script_lines": nlines, "wrapped_functions": len({l.split()[1] for l in open(script)}),
+                                         "runs": ["%d threads" % n for n, _ in api_runs], "calls_executed": api_calls}
     R.cov["race_detection"] = {"observer": "ThreadSanitizer (clang 14) on a mixed workload over 14 deterministic + 6 non-deterministic API families", "runs": ["%d threads x %d iterations, %s source" % r for r in runs], "reports": reports}
     R.sample(open(traces[0][0]).read().splitlines()[2:12])
     R.assumptions += ["the once-initialisation half is decided by model checking + trace validation; race freedom of the remaining API is decided by a happens-before observer (ThreadSanitizer) on the executed workload, which the TLA+ specification cannot see",
